@@ -28,7 +28,9 @@ Print Assumptions C17_promised_is_rewrapped.
    refused one --, and every new object of the family keep the class tag and ALL election attributes of the start
    object (the three stated exceptions: as_multiprofile, whose result is the multiprofile class of the same ballot type;
    construction with an explicit ballot_validation flag, which changes exactly that flag -- see C17_ctorval; and the
-   satisfaction profile of a profile, class 18/19, which keeps the INSTANCE LINK (attribute 0) of the profile);
+   satisfaction profile of a profile, class 18/19, which keeps the INSTANCE LINK (attribute 0) of the profile; construction
+   of ANOTHER class of the family from the object -- a ballot of any kind, mutable or frozen, built from a ballot keeps
+   name and meta; and construction from a bare builtin copy, which has nothing to inherit);
    (2) an operation the API promises never comes back as a bare builtin, and its result has the class and the
    attributes of the object it was derived from. *)
 Theorem C17_ops_preserve : forall tags other ops cur,
@@ -39,6 +41,8 @@ Theorem C17_ops_preserve : forall tags other ops cur,
                   \/ (exists b, o = OCtorVal b /\ o_cls x = o_cls cur)
                   \/ (exists k, o = OAsSat k /\ (o_cls x = 18 \/ o_cls x = 19)
                                 /\ nth 0 (o_attrs x) 0 = nth 0 (o_attrs cur) 0)
+                  \/ (exists t, o = OXCtor t /\ o_cls x = t /\ (is_ballot t = true -> o_attrs x = o_attrs cur))
+                  \/ (o = OFromPlain /\ o_cls x = o_cls cur)
       | RPlain => True
       end)
      /\ (family (o_cls cur) = true -> promised (o_cls cur) (opname o) = true ->
